@@ -156,23 +156,23 @@ fn put(img: &mut [u8], off: usize, bytes: &[u8]) {
     }
 }
 
-/// A bank with 0..=MAXN tokens: keys from a 256-element universe (byte 0 symbolic) in strictly
+/// A bank with exactly `n <= MAXN` tokens (`n` is a constant of the calling harness: the map's
+/// binary search then runs a concrete number of rounds): keys from a 256-element universe (byte 0 symbolic) in strictly
 /// ascending order (the fixed-map invariant), arbitrary u64 balances below `amount_bound`,
 /// arbitrary remaining GT, arbitrary flag byte; everything else zero.
-fn any_bank(amount_bound: u64) -> (Box<GtBank>, Model) {
-    assert!(BSIZE == 2016);
+fn any_bank(n: usize, amount_bound: u64) -> (GtBank, Model) {
+    assert!(BSIZE == 2016 && n <= MAXN);
     let mut m = Model {
-        n: kani::any(),
+        n,
         keys: kani::any(),
         amounts: kani::any(),
         outs: kani::any(),
         remaining: kani::any(),
         flags: kani::any(),
     };
-    kani::assume(m.n <= MAXN);
-    let mut bank: Box<GtBank> = Box::new(bytemuck::Zeroable::zeroed());
+    let mut bank: GtBank = bytemuck::Zeroable::zeroed();
     {
-        let img = bytemuck::bytes_of_mut(&mut *bank);
+        let img = bytemuck::bytes_of_mut(&mut bank);
         img[OFF_FLAGS] = m.flags;
         put(img, OFF_REMAINING, &m.remaining.to_le_bytes());
         put(img, OFF_COUNT, &(m.n as u32).to_le_bytes());
@@ -222,7 +222,13 @@ fn check_bank(bank: &GtBank, want: &Model, p: u8) {
 #[kani::stub(gmsol_store::CoreError::name, crate::stubs::core_error_name)]
 #[kani::stub(<gmsol_store::CoreError as std::fmt::Display>::fmt, crate::stubs::fmt_core_error)]
 fn c37_transfer_out_never_overdraws() {
-    let (mut bank, m) = any_bank(u64::MAX);
+    transfer_out_step(0);
+    transfer_out_step(1);
+    transfer_out_step(2);
+}
+
+fn transfer_out_step(n: usize) {
+    let (mut bank, m) = any_bank(n, u64::MAX);
     let t: u8 = kani::any();
     let amount: u64 = kani::any();
     let p: u8 = kani::any();
@@ -263,7 +269,13 @@ fn c37_transfer_out_never_overdraws() {
 #[kani::stub(gmsol_utils::GeneralError::name, crate::stubs::general_error_name)]
 #[kani::stub(<gmsol_utils::GeneralError as std::fmt::Display>::fmt, crate::stubs::fmt_general_error)]
 fn c37_transfer_in_credits_exactly() {
-    let (mut bank, m) = any_bank(u64::MAX);
+    transfer_in_step(0);
+    transfer_in_step(1);
+    transfer_in_step(2);
+}
+
+fn transfer_in_step(n: usize) {
+    let (mut bank, m) = any_bank(n, u64::MAX);
     let t: u8 = kani::any();
     let amount: u64 = kani::any();
     let p: u8 = kani::any();
@@ -303,7 +315,12 @@ fn c37_transfer_in_credits_exactly() {
 #[kani::stub(gmsol_store::CoreError::name, crate::stubs::core_error_name)]
 #[kani::stub(<gmsol_store::CoreError as std::fmt::Display>::fmt, crate::stubs::fmt_core_error)]
 fn c37_claims_never_exceed_remaining_confirmed_gt() {
-    let (mut bank, m) = any_bank(u64::MAX);
+    claims_step(0);
+    claims_step(2);
+}
+
+fn claims_step(n: usize) {
+    let (mut bank, m) = any_bank(n, u64::MAX);
     let p: u8 = kani::any();
     let mut want = m;
     if kani::any() {
@@ -339,8 +356,14 @@ fn c37_claims_never_exceed_remaining_confirmed_gt() {
 }
 
 fn reserve_never_increases(bits: u32) {
+    reserve_step(bits, 0);
+    reserve_step(bits, 1);
+    reserve_step(bits, 2);
+}
+
+fn reserve_step(bits: u32, tokens: usize) {
     let bound: u64 = (1u64 << bits) - 1;
-    let (mut bank, m) = any_bank(bound);
+    let (mut bank, m) = any_bank(tokens, bound);
     let n: u128 = kani::any();
     let d: u128 = kani::any();
     kani::assume(n <= bound as u128 && d <= bound as u128);
@@ -419,4 +442,61 @@ fn c37_reserve_never_increases_a_balance_w8() {
 #[kani::stub(u64::_fmt, crate::stubs::u64_fmt)]
 fn c37_reserve_never_increases_a_balance_w16() {
     reserve_never_increases(16);
+}
+
+#[kani::proof]
+fn probe_lookup() {
+    // real bank, only keys symbolic
+    let x: u8 = kani::any();
+    let y: u8 = kani::any();
+    kani::assume(x < y);
+    let mut bank: GtBank = bytemuck::Zeroable::zeroed();
+    {
+        let img = bytemuck::bytes_of_mut(&mut bank);
+        put(img, OFF_COUNT, &2u32.to_le_bytes());
+        img[OFF_BALANCES] = x;
+        img[OFF_BALANCES + ENTRY] = y;
+        put(img, OFF_BALANCES + ENTRY + 32, &77u64.to_le_bytes());
+    }
+    assert!(bank.get_balance(&pk(y)) == Some(77), "symkeys-k1");
+}
+#[kani::proof]
+fn probe_lookup2() {
+    // real bank, keys concrete, amount symbolic
+    let a: u64 = kani::any();
+    let mut bank: GtBank = bytemuck::Zeroable::zeroed();
+    {
+        let img = bytemuck::bytes_of_mut(&mut bank);
+        put(img, OFF_COUNT, &2u32.to_le_bytes());
+        img[OFF_BALANCES] = 1;
+        img[OFF_BALANCES + ENTRY] = 5;
+        put(img, OFF_BALANCES + ENTRY + 32, &a.to_le_bytes());
+    }
+    assert!(bank.get_balance(&pk(5)) == Some(a), "symamount-k1");
+}
+#[kani::proof]
+fn probe_lookup3() {
+    // real bank via any_bank but probing with is_some on both
+    let (bank, m) = any_bank(2, u64::MAX);
+    assert!(bank.get_balance(&pk(m.keys[0])).is_some(), "anybank-k0");
+    assert!(bank.get_balance(&pk(m.keys[1])).is_some(), "anybank-k1");
+}
+
+#[kani::proof]
+fn probe_select() {
+    let c: bool = kani::any();
+    let a: usize = kani::any();
+    let b: usize = kani::any();
+    let r = core::hint::select_unpredictable(c, a, b);
+    assert!(r == if c { a } else { b }, "select");
+    let v = [1u8, 5u8];
+    assert!(v.binary_search(&5) == Ok(1), "bs-const");
+    let k: [[u8; 2]; 2] = [[1, 0], [5, 0]];
+    assert!(k.binary_search_by(|e| e.cmp(&[5u8, 0u8])) == Ok(1), "bs-arr");
+    let x: u8 = kani::any();
+    let y: u8 = kani::any();
+    kani::assume(x < y);
+    let k2: [[u8; 32]; 2] = [pk(x).to_bytes(), pk(y).to_bytes()];
+    let key = pk(y).to_bytes();
+    assert!(k2.binary_search_by(|e| e.cmp(&key)) == Ok(1), "bs-sym");
 }
